@@ -340,6 +340,13 @@ def boundary_stream(item, ex, specs, plan, rng, pick_branch, limit=4):
                 continue
             r = judge(item, ex, specs, kwargs, env, pick_branch)
             r.update(stream="boundary", comparison=str(rel), position=label, units=desc)
+            atomic = all(side.is_Symbol or side.is_number for side in (rel.lhs, rel.rhs))
+            if label == "on" and not atomic and r["status"] in ("mismatch", "law-fail"):
+                # the compared quantity is *computed* in floating point by the function: exactly on the boundary its
+                # round-off may fall on either side; only comparisons of arguments with each other / with constants are
+                # decisive there (the +-1e-6 neighbours are always decisive)
+                r["status"] = "skipped"
+                r["why"] = "exact boundary of a computed expression: float round-off decides the side"
             recs.append(r)
     return recs
 
